@@ -4,35 +4,47 @@ from props import c04, c05
 
 DRIVERS = ['Serve']   # model driver files this check runs: scopes translator failures to the tables they (and the proofs) import
 TRUSTED = []
-ASSUMPTIONS = ['responses are those of the C04 and C05 campaigns plus a stream over every status class']
+ASSUMPTIONS = ['responses are those of the C04 and C05 campaigns plus a stream over every status class', 'a byte stream is split into several responses only where the framing leaves no doubt (vlib/gen_c10.py wire_responses)']
 WITH_MODEL = True
+NO_MODEL = 'own files unreadable (real code only)'
 
 def judge(res, results, label=''):
     for c, r, il, ml in results:
         res.evaluations += 1
-        res.distinct.add(hash((c.entry, c.raw, c.app, c.ws, c.alloc, label, c.note if c.kind == 'history' else None)))
+        res.distinct.add(hash((c.entry, c.raw, c.app, c.ws, c.alloc, label, c.note if c.kind in ('history', 'history-2') else None)))
         if ml is not None:
             res.programs += 1
             if il != ml: res.disagree(c.line[:400], il[:400], ml[:400], 'Header.get_header_list/Server' + (' env=' + label if label else ''))
         head = r['head']
         if head.startswith(('panic', 'abort')):
             continue    # no response at all: that is C04's finding, not C10's
-        # every observation point: the bytes handed to the transport and, on the legacy entry point, the bytes returned to the caller
+        # every observation point: the bytes handed to the transport and, on the legacy entry point, the bytes returned to the caller;
+        # and EVERY response in them: an entry point that answers more than once on a connection (an interim answer, a second request of
+        # a persistent connection, an error report after a failed write) has sent several responses - all bytes the peer accepted are read
         seen = [r['writes'][0]] if r['writes'] else []
         if head.startswith('ret:') and len(head) > 4:
             ret = C.unhx(head[4:])
             if ret and ret not in seen: seen.append(ret)
+        unambiguous = c.entry.startswith('aexec') or c.ws == 'all' or str(c.ws).startswith('e:')
+        if unambiguous and r['recv'] and r['recv'] not in seen: seen.append(r['recv'])
+        judged = set()
         for full in seen:
             if not full: continue
-            resp = X.parse(full)
-            if resp is None:
+            first = X.parse(full)
+            if first is None:
                 continue    # no head at all: C05's finding
-            res.count(f'status {resp["status"]} {c.entry}')
-            res.count(f'kind {c.kind}')
-            bad = X.judge_headers(resp)
-            if bad:
-                res.fail('missing-or-duplicate:' + bad[0], c.line[:300], str([h for h in resp['headers'] if h[0] in bad])[:200], None,
-                         f'C10: status {resp["status"]} response lacks or repeats {bad}; entry {c.entry}{" env " + label if label else ""}; request {c.raw[:120]!r}')
+            resps = [first] + (X.wire_responses(full)[1:] if unambiguous or full is not seen[0] else [])
+            for k, resp in enumerate(resps):
+                key = (resp['status'], tuple(resp['headers']))
+                if key in judged: continue
+                judged.add(key)
+                res.count(f'status {resp["status"]} {c.entry}')
+                res.count(f'kind {c.kind}')
+                if k: res.count('responses after the first on one connection')
+                bad = X.judge_headers(resp)
+                if bad:
+                    res.fail('missing-or-duplicate:' + bad[0], c.line[:300], str([h for h in resp['headers'] if h[0] in bad])[:200], None,
+                             f'C10: status {resp["status"]} response{" (number %d on the connection)" % (k + 1) if k else ""} lacks or repeats {bad}; entry {c.entry}{" env " + label if label else ""}; request {c.raw[:120]!r}')
 
 def run(res, tier, seed):
     rng = C.Rng(seed)
@@ -88,6 +100,17 @@ def run(res, tier, seed):
     for variant in range(4):     # the served directory holds the names the server itself looks for
         t = X.pages_tree(xr, variant)
         own.append((t, X.route_matrix(xr, 'thorough' if tier != 'quick' or variant == 0 else 'quick', t, kind='own-pages')))
+    # ---- second audit pass: relations between two inputs, and what was asked before (a fork of its own: the families above keep their inputs)
+    yr = C.Rng(seed).fork('gen_c10/2')
+    for f in (X.connection_relations, X.body_relations, X.header_relations, X.histories2, X.transports2):
+        t = X.shape_tree(yr, tier)
+        own.append((t, f(yr, tier, t)))
+    for _ in range(1 if tier == 'quick' else 3):
+        t = X.neighbour_tree(yr, tier)
+        own.append((t, X.negotiation_neighbours(yr, tier, t)))
+    for variant in range(3):     # ... and pages named after the other statuses
+        t = X.error_pages_tree(yr, variant)
+        own.append((t, X.error_pages_cases(yr, tier, t)))
     batches += own
     # ---- configurations: each is process state of the harness, so each gets its own run; all runs side by side
     import threading
@@ -97,16 +120,34 @@ def run(res, tier, seed):
         groups.append((label, pairs, [(t, X.env_cases(xr, tier, t))]))
     t = X.shape_tree(xr, tier)
     groups.append(('configured', env, [(t, X.env_cases(xr, tier, t))]))
+    # another configured address: what a request says about the server (Host, Origin, absolute targets, proxy headers) x what the configuration says
+    t = X.shape_tree(yr, tier)
+    groups.append(('address-other', [(k, {'RWS_CONFIG_IP': '::', 'RWS_CONFIG_PORT': '443', 'RWS_CONFIG_THREAD_COUNT': '1'}.get(k, v)) for k, v in S.DEFAULT_ENV], [(t, X.header_relations(yr, tier, t))]))
+    # a request buffer of exactly the first request, for the entry point that takes its size from the configuration: what follows is read by a second read only
+    t = X.shape_tree(yr, tier)
+    groups.append(('buffer-256', [(k, ('256' if k.endswith('ALLOCATION_SIZE_IN_BYTES') else v)) for k, v in S.DEFAULT_ENV], [(t, X.connection_relations(yr, tier, t, pad_to=256))]))
+    # the 500 answers: the server's own files exist and cannot be read (real code only: the model has no such file)
+    groups.append((NO_MODEL, None, [(t, X.unreadable_cases(yr, tier, t)) for t in [X.unreadable_tree(yr, v) for v in ((0, 1, 2) if tier == 'quick' else range(6))]]))
     out = [None] * len(groups)
     def work(i):
-        try: out[i] = K.run_batches(groups[i][2], with_model=WITH_MODEL, env=groups[i][1])
+        try: out[i] = K.run_batches(groups[i][2], with_model=WITH_MODEL and groups[i][0] != NO_MODEL, env=groups[i][1])
         except Exception as ex: out[i] = ex
     ths = [threading.Thread(target=work, args=(i,)) for i in range(len(groups))]
-    for th in ths: th.start()
-    for th in ths: th.join()
+    # the echo pass: follow-ups built from the answers of the same process (validators of a cache, bounds of a resumed download)
+    echo = {}
+    def echo_work(label, pairs):
+        try:
+            t = X.shape_tree(yr, tier)
+            echo[label] = (t, X.run_echo(t, X.echo_first(yr, tier, t), lambda c, r: X.echo_followups(yr, tier, t, c, r), env=pairs, with_model=WITH_MODEL))
+        except Exception as ex: echo[label] = (None, ex)
+    eth = threading.Thread(target=lambda: [echo_work(l, p) for l, p in ([('', None)] + ([('configured', env)] if tier != 'quick' else []))])
+    for th in ths + [eth]: th.start()
+    for th in ths + [eth]: th.join()
     # the status-class stream once more under the configured list (same tree: after the default run has finished with it)
     groups.append(('configured', env, [(tree, cases[:400] + cases[540:700])]))
     out.append(K.run_batches(groups[-1][2], with_model=WITH_MODEL, env=env))
+    for label, (t, got) in echo.items():
+        groups.append((label, None, [(t, None)] if t is not None else [])); out.append(got)
     results = []
     for (label, pairs, bs), got in zip(groups, out):
         if isinstance(got, Exception): raise got
@@ -120,6 +161,11 @@ def run(res, tier, seed):
                 '(Server::process, Server::process_request, App::execute, App::handle_request), request-line spellings (method/version case, 4+ versions, both line ends, blanks), browser/tool/proxy header profiles, '
                 'meaningful values of 88 request headers, Origin x preflight shapes, range shapes (1..200 ranges), every accept/reject branch of the four built-in endpoints, server-made 400s (non-origin-form targets x methods, '
                 'failing handlers x methods x messages, read errors, request buffers 0..100000), head sizes up to 9.5 KB, request histories, random compositions; under 6 (quick) / 16 configurations of the CORS switch, lists and buffer size; '
-                'oracle also reads responses with an unregistered status and the bytes returned by the legacy entry point; distinct = (entry, request, handler, transport, buffer, configuration)')
+                'oracle also reads responses with an unregistered status and the bytes returned by the legacy entry point; distinct = (entry, request, handler, transport, buffer, configuration); '
+                'second pass: what follows the first request on the stream x Connection / version x request buffer (every response on the wire is judged, not the first), Accept-Encoding / Accept / Accept-Language x files that have '
+                'the neighbour a negotiating server would pick (sidecars valid / empty / larger / older / alone, image formats, language variants), integrity / content-coding / chunked / charset headers x the body they describe, '
+                'header pairs (fetch metadata, proxy scheme x Upgrade-Insecure-Requests x Host, method override x method, Host x version, Origin x Host, Accept x every error answer, early data x unsafe methods, poor-network hints, '
+                'Upgrade x Connection, conditional pairs), 150 more header names / values, histories per route (cache, negative cache, limiter, ban list, session), a failing transport on every kind of answer, pages named after every status, '
+                'and follow-ups built from the answers of the same process (file age in every date spelling, one second around it, declared length as range bounds, validators echoed)')
     for c, r, il, ml in results[:2]:
         res.sample({'entry': c.entry, 'request': c.raw[:80].decode('latin1'), 'headers': [h for h in (K.parse_resp(r['recv'])[0] or {'headers': []})['headers']][:6]})
